@@ -26,8 +26,10 @@ LEVEL_NOTE = ("Trusted: symx, z3, real docutils (reporter) underneath, Sphinx's 
 BUDGET_S = {"quick": 120, "thorough": 600}
 EXPLANATION = ("Symbolic type/subtype/suppress-list strings through the real _is_suppressed_warning, Sphinx's predicate and the specification; real create_warning with symbolic suppress "
                "list, subtype (every MystWarnings member), append_to/line/node presence on both front ends (Sphinx env stubbed with a recording logger).")
-ASSUMPTIONS = ["warning type strings contain no '.' (catalogue types are 'myst' / 'ref')", "Sphinx's logging filter applies sphinx.util.logging.is_suppressed_warning to (type, subtype) of the record"]
-OUTSIDE = ["static completeness over all call sites in the package", "effect of suppression on the remainder of a full document build", "Sphinx's logging pipeline beyond the predicate"]
+ASSUMPTIONS = ["warning type strings contain no '.' (catalogue types are 'myst' / 'ref')", "Sphinx's logging filter applies sphinx.util.logging.is_suppressed_warning to (type, subtype) of the record",
+               "document-level comparisons run with doctitle_xform off: docutils' DocTitle promotion reacts to any system_message in front of the first section (docutils behaviour, not MyST's)"]
+OUTSIDE = ["static completeness over all call sites in the package (every catalogue member with a call site except 'render' and 'domains' is triggered through real documents instead)",
+           "Sphinx builders other than the dummy builder", "the untyped mathjax-override notice of sphinx_ext/mathjax.py (not a catalogue warning)"]
 STUBS = ["document.settings.env -> object with config.suppress_warnings (Sphinx branch)", "sphinx.util.logging.getLogger -> recording logger"]
 NONTRIVIAL_RULE = "paths on which the predicate was true for at least one entry and false for another, or a message was emitted"
 
@@ -202,7 +204,30 @@ DOCS = [
     ("strikethrough", "a ~~b~~ c\n"),
     ("attribute", "![a](b.png){width=nonsense}\n"),
     ("duplicate_def", "[r]: http://a\n[r]: http://b\n\n[r]\n"),
+    ("not_supported", "<path:file.txt> and <project:other.md>\n"),
+    ("deprecated", "text\n", {"myst_enable_extensions": ["attrs_image"]}),
+    ("inv_retrieval", "<inv:k#x>\n", {"myst_inventories": {"k": ["https://x.invalid/", "/nonexistent-symx/objects.inv"]}}),
+    ("iref_missing", "<inv:#nosuch>\n", {"myst_inventories": {"k": ["https://x.invalid/", "@INV@"]}}),
+    ("iref_ambiguous", "<inv:#*>\n", {"myst_inventories": {"k": ["https://x.invalid/", "@INV@"]}}),
+    ("directive_parse", "```{image} a.png\n\nbody\n```\n"),
+    ("heading_slug", "# A\n\ntext\n", {"myst_heading_slug_func": int}),
+    ("html", '<div class="admonition">\n<![x\n</div>\n', {"myst_enable_extensions": ["html_admonition"]}),
 ]
+_INV = []
+
+
+def _inv_path():
+    """A small v2 inventory written once per process (used by the iref_* documents)."""
+    if not _INV:
+        import atexit, os, tempfile, zlib
+
+        fd, path = tempfile.mkstemp(prefix="symx_c14_", suffix=".inv")
+        body = "mod std:label -1 a.html#$ Title A\nother std:label -1 b.html -\n"
+        os.write(fd, b"# Sphinx inventory version 2\n# Project: p\n# Version: 1\n# The remainder of this file is compressed using zlib.\n" + zlib.compress(body.encode()))
+        os.close(fd)
+        atexit.register(lambda: os.path.exists(path) and os.remove(path))
+        _INV.append(path)
+    return _INV[0]
 
 
 def _strip_tagged(doc, tag):
@@ -220,10 +245,17 @@ def run_suppress_case(i, form, real=False):
     """Returns (n_removed_from_plain, plain_pformat_without_tagged, suppressed_pformat, warn_plain, warn_suppressed)."""
     from harness import common_render as CR
 
-    sub, text = DOCS[i]
+    sub, text = DOCS[i][:2]
     tag = "myst." + sub
     entry = {0: tag, 1: "myst", 2: "myst.*"}[form]
-    ext = {"myst_enable_extensions": ["substitution", "strikethrough", "attrs_inline"], "myst_heading_anchors": 2, "report_level": 2}
+    ext = {"myst_enable_extensions": ["substitution", "strikethrough", "attrs_inline"], "myst_heading_anchors": 2, "report_level": 2, "doctitle_xform": False}
+    if len(DOCS[i]) > 2:
+        import json
+
+        extra = DOCS[i][2]
+        if "myst_inventories" in extra:
+            extra = dict(extra, myst_inventories=json.loads(json.dumps(extra["myst_inventories"]).replace("@INV@", _inv_path())))
+        ext.update(extra)
     d1, w1 = CR.publish(text, dict(ext), real=real)
     d2, w2 = CR.publish(text, dict(ext, myst_suppress_warnings=[entry]), real=real)
     had = w1.count("[%s]" % tag)
@@ -242,7 +274,7 @@ def make_suppress(eng):
     from harness import common_render as CR
 
     CR.setup_pipeline()
-    c = CR.Choice(eng)
+    c = CR.Choice(eng, width=31)
     state = {}
     eng.witness_fn = lambda m: dict(state)
 
@@ -260,7 +292,7 @@ def make_suppress(eng):
         eng.require(("[%s]" % tag) not in p2, "suppressed-still-in-doctree")
         if p1 != p2:
             eng.stats["obligations"] += 1
-            eng.candidates.append(core.Candidate("suppression-side-effect", eng.witness(), _first_diff(p1, p2)))
+            eng.candidates.append(core.Candidate("suppression-side-effect:%s" % tag, eng.witness(), _first_diff(p1, p2)))
         else:
             eng.passed(1)
         eng.note("emitted")
@@ -275,6 +307,107 @@ def _first_diff(a, b):
         if x != y:
             return "unsuppressed (warnings removed) has %r where suppressed has %r" % (x, y)
     return "line counts differ: %d vs %d" % (len(la), len(lb))
+
+
+# ------------------------------------------------------------------- Sphinx front end: real builds
+
+SPHINX_CASES = [
+    # (expected subtype, conf.py lines, index.md)
+    ("deprecated", "myst_enable_extensions = ['attrs_image']", "# T\n\ntext\n"),
+    ("header", "", "# T\n\n### skipped\n\ntext\n"),
+    ("xref_missing", "", "# T\n\n[](nosuch.md) and [t](#nosuchid)\n"),
+    ("topmatter", "", "---\nmyst:\n  nosuchfield: 1\n---\n\n# T\n"),
+    ("directive_unknown", "", "# T\n\n```{nosuchdirective}\nx\n```\n"),
+    ("role_unknown", "", "# T\n\na {nosuchrole}`x` b\n"),
+    ("substitution", "myst_enable_extensions = ['substitution']", "# T\n\na {{ undefined_name }} b\n"),
+    ("heading_slug", "myst_heading_anchors = 2\nmyst_heading_slug_func = 'builtins.int'", "# T\n\ntext\n"),
+    ("xref_ambiguous", "", "# T\n\n[](#dup)\n\n```{toctree}\nother\n```\n", {"other.md": "(dup)=\n# Other\n\n```{glossary}\ndup\n  term\n```\n"}),
+]
+SPX = {}
+
+
+def _sphinx_build(case, form, real=False):
+    """One real Sphinx (dummy builder) run.  Returns the warning stream text."""
+    import io, os, sys, tempfile
+    from contextlib import contextmanager
+    from sphinx.application import Sphinx
+    from sphinx.util.docutils import docutils_namespace, patch_docutils
+
+    sub, conf, text = SPHINX_CASES[case][:3]
+    extra = SPHINX_CASES[case][3] if len(SPHINX_CASES[case]) > 3 else {}
+    tag = "myst." + sub
+    entry = {0: None, 1: tag, 2: "myst", 3: "myst.*"}[form]
+    saved = {}
+    if not real:
+        for name, mod in SPX.items():
+            saved[name] = sys.modules.get(name)
+            sys.modules[name] = mod
+    try:
+        with tempfile.TemporaryDirectory(prefix="symx_c14_") as d:
+            open(os.path.join(d, "conf.py"), "w").write("extensions = ['myst_parser']\n%s\nsuppress_warnings = %r\n" % (conf, [entry] if entry else []))
+            open(os.path.join(d, "index.md"), "w").write(text)
+            for fn, body_ in extra.items():
+                open(os.path.join(d, fn), "w").write(body_)
+            warn = io.StringIO()
+            with docutils_namespace(), patch_docutils(d):
+                app = Sphinx(d, d, os.path.join(d, "_build"), os.path.join(d, "_build", ".doctrees"), "dummy", status=None, warning=warn, freshenv=True, parallel=0)
+                app.build()
+            return warn.getvalue()
+    finally:
+        for name, mod in saved.items():
+            if mod is None:
+                sys.modules.pop(name, None)
+            else:
+                sys.modules[name] = mod
+
+
+def check_sphinx_case(case, form, warn):
+    import re
+    from myst_parser.warnings_ import MystWarnings
+
+    sub = SPHINX_CASES[case][0]
+    tag = "[myst.%s]" % sub
+    catalogue = {m.value for m in MystWarnings}
+    tags = re.findall(r"\[myst\.([^\]\s]+)\]", warn)
+    for t in tags:
+        if t not in catalogue:
+            return ("tag-outside-catalogue", "Sphinx front end logged [myst.%s], which is not in the MystWarnings catalogue: %r" % (t, warn[:300]))
+    if form == 0:
+        if tag not in warn:
+            return ("sphinx-tag-not-emitted:%s" % sub, "expected %s in the Sphinx log: %r" % (tag, warn[:300]))
+    else:
+        if "[myst." in warn:
+            return ("sphinx-suppression-ineffective:%s" % sub, "suppress entry form %d left MyST warnings in the log: %r" % (form, warn[:300]))
+    return None
+
+
+def make_sphinx(eng):
+    from harness import common_render as CR
+
+    CR.setup()
+    if not SPX:
+        SPX.update(load_instrumented(["myst_parser.mdit_to_docutils.sphinx_", "myst_parser.parsers.sphinx_", "myst_parser.sphinx_ext.myst_refs", "myst_parser.sphinx_ext.main"]))
+    c = CR.Choice(eng)
+    state = {}
+    eng.witness_fn = lambda m: dict(state)
+
+    def body():
+        c.reset()
+        case = c.choose(len(SPHINX_CASES))
+        form = c.choose(4)
+        state.update(sphinx_case=case, form=form)
+        try:
+            warn = _sphinx_build(case, form)
+        except Exception as exc:  # noqa
+            eng.fail("sphinx-build-raises", "%s: %s" % (type(exc).__name__, str(exc)[:300]))
+        err = check_sphinx_case(case, form, warn)
+        if err:
+            eng.fail(*err)
+        eng.passed(2)
+        eng.note("emitted")
+        return "ok"
+
+    return body
 
 
 def families(tier, seed):
@@ -295,6 +428,9 @@ def families(tier, seed):
                             args=dict(k=k, ne=ne, sphinx=sphinx), nontrivial="emitted", max_forks=40000, required=(k <= 2)))
     F.append(Family("suppress-docs", make_suppress, "%d documents each triggering one catalogue warning through the whole docutils pipeline x suppress entry (exact tag / bare type / type.*): "
                     "the warning disappears from log and doctree and nothing else changes (degenerate)" % len(DOCS), nontrivial="emitted", max_forks=100000))
+    F.append(Family("sphinx-builds", make_sphinx, "%d real Sphinx (dummy builder) projects each triggering one catalogue warning in the Sphinx front end (incl. the config-time deprecation and the reference "
+                    "resolver's warnings) x suppress_warnings none / exact tag / bare type / type.*: tag emitted, every [myst.*] tag is in the catalogue, suppression removes it" % len(SPHINX_CASES),
+                    nontrivial="emitted", max_forks=100000))
     return F
 
 
@@ -309,6 +445,13 @@ def replay(label, witness):
     import myst_parser.warnings_ as real
     from docutils import nodes
 
+    if "sphinx_case" in witness:
+        try:
+            warn = _sphinx_build(witness["sphinx_case"], witness["form"], real=True)
+        except Exception as e:  # noqa
+            return ("C14/exception:%s" % type(e).__name__, "%r" % (e,))
+        err = check_sphinx_case(witness["sphinx_case"], witness["form"], warn)
+        return ("C14/%s" % err[0], err[1]) if err else None
     if "doc" in witness:
         try:
             had, n, p1, p2, w1, w2, tag = run_suppress_case(witness["doc"], witness["form"], real=True)
